@@ -12,6 +12,19 @@ CHECKS = {
         "note": "Trusted: CPython ast, sympy algebra, the continuum operators derived in pdelint/oracle.py, numba compiling Python "
         "semantics faithfully. Not decided: spectral (FFT) Laplacians, float round-off, near-axis uniformity (thorough tier only).",
     },
+    "C02": {
+        "level": "proof",
+        "technique": "static: abstract interpretation (ast->sympy) of interpreted and compiled ghost-cell setters on shaped symbolic arrays; index tables + defining-equation identities",
+        "text": "For every local boundary-condition class (Dirichlet, Neumann, Mixed incl. the infinite-coefficient repair branch, Curvature, "
+        "periodic/anti-periodic, Normal* variants, Expression* with expression or callable, UserBC), each side, axis and 1-3 axes, "
+        "rank 0/1 data, homogeneous and per-face values: the single store performed by the interpreted setter and by the compiled "
+        "setter is extracted and proved to write exactly the virtual point of that side for all valid transverse cells (normal "
+        "component iff `normal`), to read the adjacent cells with equal transverse/component indices, and to satisfy the defining "
+        "equation identically in value, spacing and shape. Documented aliases are tied to the family whose equation was proved.",
+        "note": "Trusted: CPython ast, sympy, sympy.parse_expr for the f-string templates, numba compiling Python semantics. Assumes >= 2 "
+        "cells per axis. Not decided: meaning of arbitrary user expressions (C11); compiled MixedBC with linked value arrays; the "
+        "parsing of nested BC specifications beyond the alias registry.",
+    },
 }
 
 NOT_APPLICABLE: dict[str, str] = {}
